@@ -152,6 +152,9 @@ NEEDS = {
  'C18_10': 'state count / capacity an exact multiple of 8 and BitArrayT::set() (success branch of updatePlan): unguarded _storage[CAPACITY / 8] &= mask reads and writes one byte past the array',
  'C16_10': 'one state calls changeTo() twice for the same destination before processing: the second call is dropped as a duplicate and emits no transition record',
  'C08_10': 'payload config, plan task without payload (plan.change<>()): the Origin scope moved into the payload branch, the request carries the invalid id as requester',
+ 'C03_8': "root with a head, a guard redirects during activation and the head's entryGuard vetoes the redirect: C_::deepEntryGuard discards the head's result, the veto is masked by cancelledBefore in the sub-state",
+ 'C05_10': "plans enabled and the root's own update() reports a task status: C_::deepUpdate skips the active state's update() that cycle (preUpdate / postUpdate still run)",
+ 'C11_10': "two or more rounds in one step, earlier accepted, later vetoed, origin of the vetoed request differs from the accepted destination: fall-back to pendingTransition.origin, previousTransition() disagrees with the active state",
 }
 def sh(cmd, **kw):
     return subprocess.run(cmd, shell=True, stdout=subprocess.PIPE, stderr=subprocess.STDOUT, text=True, **kw)
